@@ -15,6 +15,14 @@ package webrtc
 // Workload: foreign offers with payload types permuted per description and, often, re-drawn per section; answerers
 // with default / privately numbered / subset MediaEngines, 0..3 pre-created transceivers of which most carry
 // SetCodecPreferences (engine payload types or 0), multi-codec negotiation on/off, optional second extended offer.
+//
+// Spelling classes (the same codec written differently on the two sides): pion's codec matcher treats a registered or
+// offered clock rate 0 / channel count 0 as "the codec's default", so "matched" does not mean "textually equal".
+// The generator therefore also draws (a) MediaEngine registrations and codec preferences that leave clock rate and/or
+// channels 0 (the documented lazy registration) or spell a mono channel count explicitly, and (b) offers that spell
+// the channel count the other way (opus without "/2", mono codecs with "/1"); pre-created transceivers come from
+// AddTransceiverFromKind or AddTrack. The oracle is unchanged: whatever the local spelling, the answer's rtpmap
+// for a payload type must denote the offered (name, clock rate, channels).
 
 import (
 	"fmt"
@@ -35,10 +43,64 @@ type c16Codec struct {
 	Fmtp  string
 	PT    PayloadType
 	RTX   PayloadType // 0: none
+	// local spelling of clock rate / channels when it differs from the canonical one above (0 = left unset)
+	Re      bool
+	ReClock uint32
+	ReCh    uint16
+}
+
+// spelled returns clock rate and channels as the local side writes them.
+func (c c16Codec) spelled() (uint32, uint16) {
+	if c.Re {
+		return c.ReClock, c.ReCh
+	}
+
+	return c.Clock, c.Ch
+}
+
+func (c c16Codec) label() string {
+	if !c.Re {
+		return fmt.Sprintf("%d=%s", c.PT, c.Name)
+	}
+
+	return fmt.Sprintf("%d=%s(/%d/%d)", c.PT, c.Name, c.ReClock, c.ReCh)
+}
+
+// c16Respell draws another spelling of the same codec: clock rate 0 where the canonical rate is the rate an unset clock
+// rate stands for (48000 opus, 8000 PCMU/PCMA, 90000 video), channels 0 for opus (unset = stereo), explicit 1 for mono audio.
+func c16Respell(r *kit.Rand, k c16Codec) c16Codec {
+	clock, ch := k.Clock, k.Ch
+	name := strings.ToLower(k.Name)
+	if (k.Kind == RTPCodecTypeVideo || name == "opus" || name == "pcmu" || name == "pcma") && r.Chance(0.7) {
+		clock = 0
+	}
+	switch {
+	case name == "opus":
+		if r.Chance(0.7) {
+			ch = 0
+		}
+	case k.Kind == RTPCodecTypeAudio:
+		if r.Chance(0.5) {
+			ch = 1
+		}
+	}
+	k.Re, k.ReClock, k.ReCh = clock != k.Clock || ch != k.Ch, clock, ch
+
+	return k
 }
 
 func c16CodecTable() []c16Codec {
-	return []c16Codec{
+	type row struct {
+		Kind  RTPCodecType
+		Name  string
+		Clock uint32
+		Ch    uint16
+		Fmtp  string
+		PT    PayloadType
+		RTX   PayloadType
+	}
+	var out []c16Codec
+	for _, k := range []row{
 		{RTPCodecTypeAudio, "opus", 48000, 2, "minptime=10;useinbandfec=1", 111, 0},
 		{RTPCodecTypeAudio, "G722", 8000, 0, "", 9, 0},
 		{RTPCodecTypeAudio, "PCMU", 8000, 0, "", 0, 0},
@@ -49,7 +111,11 @@ func c16CodecTable() []c16Codec {
 		{RTPCodecTypeVideo, "AV1", 90000, 0, "", 45, 46},
 		{RTPCodecTypeVideo, "VP9", 90000, 0, "profile-id=0", 98, 99},
 		{RTPCodecTypeVideo, "VP9", 90000, 0, "profile-id=2", 100, 101},
+	} {
+		out = append(out, c16Codec{Kind: k.Kind, Name: k.Name, Clock: k.Clock, Ch: k.Ch, Fmtp: k.Fmtp, PT: k.PT, RTX: k.RTX})
 	}
+
+	return out
 }
 
 func (c c16Codec) params() (primary RTPCodecParameters, rtx *RTPCodecParameters) {
@@ -59,10 +125,11 @@ func (c c16Codec) params() (primary RTPCodecParameters, rtx *RTPCodecParameters)
 		prefix = "video/"
 		fb = []RTCPFeedback{{"goog-remb", ""}, {"ccm", "fir"}, {"nack", ""}, {"nack", "pli"}}
 	}
-	primary = RTPCodecParameters{RTPCodecCapability: RTPCodecCapability{prefix + c.Name, c.Clock, c.Ch, c.Fmtp, fb}, PayloadType: c.PT}
+	clock, ch := c.spelled()
+	primary = RTPCodecParameters{RTPCodecCapability: RTPCodecCapability{prefix + c.Name, clock, ch, c.Fmtp, fb}, PayloadType: c.PT}
 	if c.RTX != 0 {
 		rtx = &RTPCodecParameters{
-			RTPCodecCapability: RTPCodecCapability{"video/rtx", c.Clock, 0, fmt.Sprintf("apt=%d", c.PT), nil}, PayloadType: c.RTX,
+			RTPCodecCapability: RTPCodecCapability{"video/rtx", clock, 0, fmt.Sprintf("apt=%d", c.PT), nil}, PayloadType: c.RTX,
 		}
 	}
 
@@ -93,6 +160,19 @@ type c16Local struct {
 	Dir    string
 	Prefs  []int  // indexes into Engine (codecs of Kind), empty: no SetCodecPreferences
 	PTMode string // engine | zero
+	// PrefRe, when set, is parallel to Prefs: the preference spells clock rate / channels on its own (not as registered)
+	PrefRe []c16Codec
+	Via    string // "" AddTransceiverFromKind | "track": AddTrack of a local track of engine codec Track
+	Track  int
+}
+
+// pref returns preference k as the codec the local side writes.
+func (l c16Local) pref(engine []c16Codec, k int) c16Codec {
+	if len(l.PrefRe) == len(l.Prefs) {
+		return l.PrefRe[k]
+	}
+
+	return engine[l.Prefs[k]]
 }
 
 type c16Case struct {
@@ -186,8 +266,76 @@ func c16Gen(r *kit.Rand) *c16Case {
 		c.Locals = append(c.Locals, l)
 	}
 	c.DisableMulti = r.Chance(0.25)
+	c16GenSpelling(r, c)
 
 	return c
+}
+
+// c16GenSpelling draws the spelling classes on top of a generated case (drawn last: the structure of a case does not depend on them).
+func c16GenSpelling(r *kit.Rand, c *c16Case) {
+	// (a) registrations that leave clock rate / channels unset or spell mono explicitly
+	if r.Chance(0.45) {
+		all := r.Chance(0.4)
+		n := 0
+		for i := range c.Engine {
+			if all || r.Chance(0.5) {
+				c.Engine[i] = c16Respell(r, c.Engine[i])
+				if c.Engine[i].Re {
+					n++
+				}
+			}
+		}
+		if n > 0 {
+			c.EngineClass += "+respelled"
+		}
+	}
+	// (b) offers that spell the channel count the other way, consistently per description and codec name
+	// (a payload type never denotes two codecs): opus without channel count, mono audio codecs with "/1"
+	if r.Chance(0.35) {
+		flip := map[string]bool{}
+		for _, m := range c.Offer.Media {
+			if m.Kind != "audio" {
+				continue
+			}
+			for k := range m.Codecs {
+				name := strings.ToLower(m.Codecs[k].Name)
+				if _, drawn := flip[name]; !drawn {
+					flip[name] = r.Chance(0.6)
+				}
+				if !flip[name] {
+					continue
+				}
+				switch m.Codecs[k].Ch {
+				case 0:
+					m.Codecs[k].Ch = 1
+				case 2:
+					m.Codecs[k].Ch = 0
+				}
+			}
+		}
+	}
+	// (c) codec preferences spelled on their own; pre-created transceivers that come from AddTrack
+	for i := range c.Locals {
+		l := &c.Locals[i]
+		if len(l.Prefs) > 0 && r.Chance(0.35) {
+			for _, idx := range l.Prefs {
+				k := c.Engine[idx]
+				k.Re = false
+				l.PrefRe = append(l.PrefRe, c16Respell(r, k))
+			}
+		}
+		if r.Chance(0.25) {
+			var idx []int
+			for j, k := range c.Engine {
+				if k.Kind.String() == l.Kind {
+					idx = append(idx, j)
+				}
+			}
+			if len(idx) > 0 {
+				l.Via, l.Track, l.Dir = "track", kit.Pick(r, idx), "sendrecv"
+			}
+		}
+	}
 }
 
 func c16M(kind, mid, dir string, codecs ...genCodec) *genMedia {
@@ -206,7 +354,7 @@ func c16Hand(media ...*genMedia) *genSDP {
 	}
 }
 
-const c16NumDirected = 9
+const c16NumDirected = 10
 
 // c16Directed: hand-written minimal cases, the same for every seed.
 func c16Directed(i int) *c16Case {
@@ -242,6 +390,11 @@ func c16Directed(i int) *c16Case {
 		}
 		c.Offer = c16Hand(c16M("video", "b", "sendrecv", vp9(120, 0), vp9(61, 2), rtx(101, 61)), c16M("video", "0", "sendrecv", vp9(120, 0), rtx(104, 120)))
 		c.EngineClass, c.Engine = "subset-default-pts", []c16Codec{tab[1], tab[5], tab[8]}
+	case 9: // codec preference that names opus only (clock rate / channels unset, payload type 0) on a canonical engine
+		c.Offer = c16Hand(c16M("audio", "0", "sendrecv", opus(109)))
+		lazy := tab[0]
+		lazy.Re, lazy.ReClock, lazy.ReCh = true, 0, 0
+		c.Locals = []c16Local{{Kind: "audio", Dir: "recvonly", Prefs: []int{0}, PTMode: "zero", PrefRe: []c16Codec{lazy}}}
 	default: // renegotiation appends a section that numbers VP8 differently
 		c.Offer = c16Hand(c16M("video", "0", "sendrecv", vp8(96), rtx(97, 96)), c16M("application", "1", ""), c16M("video", "2", "sendonly", vp8(120), rtx(121, 120)))
 		c.Rounds, c.FirstN = 2, 2
@@ -271,7 +424,11 @@ func c16Describe(g *genSDP) string {
 	for _, m := range g.Media {
 		var cs []string
 		for _, k := range m.Codecs {
-			cs = append(cs, fmt.Sprintf("%d=%s", k.PT, k.Name))
+			if m.Kind == "audio" && k.Ch > 0 {
+				cs = append(cs, fmt.Sprintf("%d=%s/%d", k.PT, k.Name, k.Ch))
+			} else {
+				cs = append(cs, fmt.Sprintf("%d=%s", k.PT, k.Name))
+			}
 		}
 		dir := m.Dir
 		if dir == "" {
@@ -307,7 +464,7 @@ func c16DescribeParsed(d *kit.SDPDesc) string {
 func (c *c16Case) engineDesc() string {
 	var cs []string
 	for _, k := range c.Engine {
-		cs = append(cs, fmt.Sprintf("%d=%s", k.PT, k.Name))
+		cs = append(cs, k.label())
 	}
 
 	return strings.Join(cs, ",")
@@ -438,6 +595,62 @@ type c16SectionInfo struct {
 	HasPrefs bool   // the section is served by a pre-created transceiver on which SetCodecPreferences was called
 	PreMade  bool   // the section is served by a pre-created transceiver
 	PTMode   string // of the preferences
+	// the codec identities as the answerer's side spells them (registration / preferences of the serving transceiver)
+	Local []c16Ident
+	Pref  []c16Ident
+}
+
+// c16LocalIdents is how the local side would write the codec (and its rtx) into an rtpmap.
+func c16LocalIdents(k c16Codec) []c16Ident {
+	clock, ch := k.spelled()
+	chs := "1"
+	if ch > 0 {
+		chs = fmt.Sprint(ch)
+	}
+	out := []c16Ident{{strings.ToLower(k.Name), fmt.Sprint(clock), chs, true}}
+	if k.RTX != 0 {
+		out = append(out, c16Ident{"rtx", fmt.Sprint(clock), "1", true})
+	}
+
+	return out
+}
+
+func c16HasIdent(set []c16Ident, id c16Ident) bool {
+	for _, x := range set {
+		if x == id {
+			return true
+		}
+	}
+
+	return false
+}
+
+// c16SpelledOtherwise: the local side knows the codec name but no local spelling of it equals the offered identity.
+func c16SpelledOtherwise(set []c16Ident, offered c16Ident) bool {
+	named := false
+	for _, x := range set {
+		if x.Name == offered.Name {
+			named = true
+		}
+	}
+
+	return named && !c16HasIdent(set, offered)
+}
+
+// c16ClassifyIdentity names the cause of "the answer lists an offered payload type with another codec identity".
+func c16ClassifyIdentity(want, got c16Ident, in c16SectionInfo, prefKept string) string {
+	switch {
+	case want.Name != got.Name:
+		return "answer-pt-maps-to-different-codec" + prefKept
+	case in.HasPrefs && c16HasIdent(in.Pref, got):
+		// same codec name, but clock rate / channels are those of the local codec preference, not the offered ones
+		return "answer-pt-changes-clock-or-channels:codec-preference-spelling-kept"
+	case c16HasIdent(in.Local, got):
+		// ... those of the local MediaEngine registration
+		return "answer-pt-changes-clock-or-channels:local-registration-spelling-kept"
+	default:
+		return "answer-pt-changes-clock-or-channels"
+	}
 }
 
 func c16Check(offerText, answerText string, info func(mid string) c16SectionInfo) (fs []c16Finding, stats map[string]int, err error) {
@@ -534,11 +747,23 @@ func c16Check(offerText, answerText string, info func(mid string) c16SectionInfo
 					fs = append(fs, c16Finding{c16Classify(off, offIdents, aid, i, pt, got, in), where})
 				case want.Known && got.Known && want != got:
 					bad[pt] = true
-					fs = append(fs, c16Finding{"answer-pt-maps-to-different-codec" + prefKept, where + fmt.Sprintf("; in the offer section %s is %s", pt, want)})
+					fs = append(fs, c16Finding{c16ClassifyIdentity(want, got, in, prefKept), where + fmt.Sprintf("; in the offer section %s is %s", pt, want)})
 				case want.Known != got.Known:
 					stats["model_divergence_rtpmap_on_one_side_only"]++
 				default:
 					stats["answer_formats_ok"]++
+					// evidence for the spelling classes: the local side writes this codec differently from the offer, by serving path
+					path := "transceiver-created-by-remote"
+					set := in.Local
+					switch {
+					case in.HasPrefs:
+						path, set = "premade-with-preferences", in.Pref
+					case in.PreMade:
+						path = "premade-no-preferences"
+					}
+					if want.Known && c16SpelledOtherwise(set, want) {
+						stats["answer_formats_ok_local_spelling_differs:"+path]++
+					}
 				}
 			}
 		}
@@ -606,9 +831,11 @@ func c16Classify(off *kit.SDPDesc, offIdents []map[string]c16Ident, ansIdents ma
 // ---------------------------------------------------------------- driver
 
 type c16Answerer struct {
-	pc    *PeerConnection
-	made  map[*RTPTransceiver]c16Local
-	notes []string
+	pc     *PeerConnection
+	made   map[*RTPTransceiver]c16Local
+	notes  []string
+	local  []c16Ident
+	engine []c16Codec
 }
 
 func c16NewAnswerer(c *c16Case) (*c16Answerer, error) {
@@ -620,16 +847,48 @@ func c16NewAnswerer(c *c16Case) (*c16Answerer, error) {
 	if err != nil {
 		return nil, err
 	}
-	a := &c16Answerer{pc: pc, made: map[*RTPTransceiver]c16Local{}}
-	for _, l := range c.Locals {
-		tr, terr := pc.AddTransceiverFromKind(NewRTPCodecType(l.Kind), RTPTransceiverInit{Direction: NewRTPTransceiverDirection(l.Dir)})
+	a := &c16Answerer{pc: pc, made: map[*RTPTransceiver]c16Local{}, engine: c.Engine}
+	for _, k := range c.Engine {
+		a.local = append(a.local, c16LocalIdents(k)...)
+	}
+	for li, l := range c.Locals {
+		var tr *RTPTransceiver
+		var terr error
+		if l.Via == "track" {
+			p, _ := c.Engine[l.Track].params()
+			track, nerr := NewTrackLocalStaticSample(p.RTPCodecCapability, fmt.Sprintf("c16track%d", li), "c16stream")
+			if nerr != nil {
+				return nil, fmt.Errorf("track: %w", nerr)
+			}
+			sender, aerr := pc.AddTrack(track)
+			if aerr != nil {
+				a.notes = append(a.notes, "AddTrack: "+c16ErrClass(aerr))
+
+				continue
+			}
+			for _, cand := range pc.GetTransceivers() {
+				if cand.Sender() == sender {
+					tr = cand
+				}
+			}
+			if tr == nil {
+				continue
+			}
+			if prev, reused := a.made[tr]; reused { // AddTrack put the track on an earlier pre-created transceiver
+				if len(prev.Prefs) > 0 {
+					continue
+				}
+			}
+		} else {
+			tr, terr = pc.AddTransceiverFromKind(NewRTPCodecType(l.Kind), RTPTransceiverInit{Direction: NewRTPTransceiverDirection(l.Dir)})
+		}
 		if terr != nil {
 			continue // an engine without codecs of the kind cannot have such a transceiver
 		}
 		if len(l.Prefs) > 0 {
 			var prefs []RTPCodecParameters
-			for _, idx := range l.Prefs {
-				p, rtx := c.Engine[idx].params()
+			for k := range l.Prefs {
+				p, rtx := l.pref(c.Engine, k).params()
 				if l.PTMode == "zero" {
 					p.PayloadType = 0
 					rtx = nil // an rtx entry cannot be expressed without payload types
@@ -657,20 +916,26 @@ func (a *c16Answerer) info(mid string) c16SectionInfo {
 		}
 		l, ok := a.made[tr]
 		if !ok {
-			return c16SectionInfo{}
+			return c16SectionInfo{Local: a.local}
+		}
+		in := c16SectionInfo{PreMade: true, HasPrefs: len(l.Prefs) > 0, PTMode: l.PTMode, Local: a.local}
+		for k := range l.Prefs {
+			in.Pref = append(in.Pref, c16LocalIdents(l.pref(a.engine, k))...)
 		}
 
-		return c16SectionInfo{PreMade: true, HasPrefs: len(l.Prefs) > 0, PTMode: l.PTMode}
+		return in
 	}
 
-	return c16SectionInfo{}
+	return c16SectionInfo{Local: a.local}
 }
 
 func TestVerifC16(t *testing.T) {
 	run := kit.Start(t, "C16", "seeded foreign offers (audio/video/application, payload types permuted per description and re-drawn per section, "+
-		"RTX incl. dangling apt, unsupported codecs, re-cased names; first 9 cases hand-written) against answerers whose MediaEngine uses pion's default "+
+		"RTX incl. dangling apt, unsupported codecs, re-cased names; first 10 cases hand-written) against answerers whose MediaEngine uses pion's default "+
 		"numbering, a private numbering or a subset, with 0..3 pre-created transceivers (70% with SetCodecPreferences, engine payload types or 0), "+
-		"multi-codec negotiation on/off, 30% with a second extended offer. A case counts when CreateAnswer succeeded; it is non-trivial when the answer "+
+		"multi-codec negotiation on/off, 30% with a second extended offer; spelling classes on top: 45% of the engines register some codecs with clock rate / "+
+		"channels left 0 (lazy registration) or mono spelled as 1, 35% of the preference lists are spelled on their own, 35% of the offers spell audio channel counts the "+
+		"other way (opus without /2, mono with /1), 25% of the pre-created transceivers come from AddTrack. A case counts when CreateAnswer succeeded; it is non-trivial when the answer "+
 		"accepts >= 1 audio/video section whose offer section numbers a common codec differently from the answerer's MediaEngine; distinct by offer structure + engine + locals")
 	defer run.Finish()
 	run.Assume("kit.ParseSDP is a faithful line-level reader; codec identity = (rtpmap name case-folded, clock rate, channels with omitted == 1), exactly the triple of the statement")
@@ -705,6 +970,29 @@ func TestVerifC16(t *testing.T) {
 			}
 		}
 		run.Seen("locals", fmt.Sprintf("%d made/%d with preferences", len(a.made), withPrefs))
+		for _, k := range c.Engine {
+			if k.Re {
+				run.Seen("registration_spelling", fmt.Sprintf("%s/%d/%d", k.Name, k.ReClock, k.ReCh))
+			}
+		}
+		for _, l := range a.made {
+			if l.Via != "" {
+				run.Count("premade_transceivers_from_AddTrack", 1)
+			}
+			for k := range l.Prefs {
+				if pk := l.pref(c.Engine, k); len(l.PrefRe) > 0 && pk.Re {
+					run.Seen("preference_spelling", fmt.Sprintf("%s/%d/%d", pk.Name, pk.ReClock, pk.ReCh))
+				}
+			}
+		}
+		for _, m := range c.Offer.Media {
+			for _, k := range m.Codecs {
+				name := strings.ToLower(k.Name)
+				if m.Kind == "audio" && ((name == "opus" && k.Ch != 2) || (name != "opus" && k.Ch != 0)) {
+					run.Seen("offer_channel_spelling", fmt.Sprintf("%s/%d/%d", name, k.Clock, k.Ch))
+				}
+			}
+		}
 		for round := 1; round <= c.Rounds; round++ {
 			g := c.offerFor(round)
 			offerText := g.String()
